@@ -122,7 +122,10 @@ def observe(case, rng, kind, paths, tid, variant=0, hist="", clear=True):
             recs.append(_record(case, path, tid, exc, dict(U.EMPTY_OBS, claimL=False, claimR=False), {"hist": hist}))
             continue
         for b, (L, S, R, err) in enumerate(outs):
-            o = U.measure(mats[b], L, S, R, case["dtype"], rescaled)
+            try:
+                o = U.measure(mats[b], L, S, R, case["dtype"], rescaled)
+            except Exception:  # noqa - an output that cannot even be measured is reported as ill-shaped (lab = False)
+                o = dict(U.EMPTY_OBS, hasL=L is not None, hasS=S is not None, hasR=R is not None, k=U.NA)
             o["e2"] = U.err2_of(err, case["dtype"])
             o["claimL"], o["claimR"] = False, False
             if path.startswith("tensor"):
